@@ -82,6 +82,33 @@ Theorem C06_map_takes_copies : forall pcre ft w m k v w' r ko vo,
 Proof. exact map_takes_copies. Qed.
 Print Assumptions C06_map_takes_copies.
 
+(* the pair form SPIF_MAP_SET(map, pair, NULL): the pair stays the caller's own object, unchanged,
+   and the map's entry is built from copies of its key and value *)
+Theorem C06_map_pair_form_takes_copies : forall pcre ft w m p w' r po,
+  get w p = Ok po -> step pcre ft w (MSetPair m p) = Ok (w', r) ->
+  lookup p (held w') = Some po /\
+  exists ko vo, po = OPair (Some ko) (Some vo) /\
+  exists i c a al xs' pk v2,
+    lookup m (held w') = Some (OCont i c a al xs') /\ In (Some (OPair pk (Some v2))) xs' /\ abs v2 = abs vo /\
+    (r = RBool false -> exists k2, pk = Some k2 /\ abs k2 = abs ko).
+Proof. exact map_pair_form_takes_copies. Qed.
+Print Assumptions C06_map_pair_form_takes_copies.
+
+(* the map's own stored value / own stored entry handed back to set: ledger = sum of footprints is
+   kept and no other handle changes *)
+Theorem C06_map_own_objects_back : forall pcre ft w m k pf w' r b,
+  Inv b w -> step pcre ft w (MSetOwn m k pf) = Ok (w', r) ->
+  Inv b w' /\ forall h, h <> m -> forall o, lookup h (held w) = Some o -> lookup h (held w') = Some o.
+Proof. exact map_set_own_neutral. Qed.
+Print Assumptions C06_map_own_objects_back.
+
+(* querying (count, get, contains, find, index, map get / has_key / has_value) allocates nothing,
+   frees nothing and changes nothing the program holds *)
+Theorem C06_query_changes_nothing : forall pcre ft w c h w' r,
+  step pcre ft w (Query c h) = Ok (w', r) -> w' = w /\ r = RUnit.
+Proof. exact query_changes_nothing. Qed.
+Print Assumptions C06_query_changes_nothing.
+
 (* an operation changes only the handles it writes; everything else the program holds is untouched *)
 Theorem C06_others_untouched : forall pcre ft h w op w' r,
   step pcre ft w op = Ok (w', r) -> ~ In h (writes op) -> is_delall op = false ->
@@ -111,7 +138,7 @@ Definition pc (_ : option text) (_ : Z) : Z := 1.
 (* a map that is overwritten, read out, emptied by remove and deleted while the caller's key and
    value are still alive; a list with placeholders deleted non-empty; done + init + reuse *)
 Definition ex_prog : list op :=
-  [NewCont IMap DL; NewStr (Some [107]); NewStr (Some [118]); MSet 0 1 2; MSet 0 1 2; MKeys 0 None; MRemove 0 1;
+  [NewCont IMap DL; NewStr (Some [107]); NewStr (Some [118]); MSet 0 1 2; MSet 0 1 2; MKeys 0 None; MRemove 0 1; MSetPair 0 4; MSetOwn 0 1 true; MSetOwn 0 1 false; Query 0 1; Query 3 2;
    NewCont IList LL; LInsertAt 5 1 3; Dup 5; Done 5; Init 5; LAppend 5 2; NewTok (Some [97; 32; 98]); TokEval 7; TokEval 7;
    NewRegexp (Some [97]); ReSetFlags 8 [105]; NewUrl (Some [120; 58; 47; 47; 104; 58; 49]); UrlUnparse 9; DelAll].
 Example ex_balance : exists w outs, run pc [(105, 1)] w0 ex_prog = Ok (w, outs) /\ held w = [] /\ ledger w = 0 /\
